@@ -124,7 +124,7 @@ def gen_load(rng, quick, numpy):
                  {"kind": "udict", "n": 25, "dense": True, "seed": rng.randrange(1000)},
                  {"kind": "ulist", "n": 30, "seed": rng.randrange(1000)},
                  {"kind": "umix", "n": 20, "dense": True, "seed": rng.randrange(1000)},
-                 {"kind": "utext", "n": 30000, "period": 37, "seed": rng.randrange(1000)},       # >= 64 KiB encoded
+                 {"kind": "utext", "n": 50000, "period": 37, "seed": rng.randrange(1000)},       # ~80 KiB encoded
                  {"kind": "udict", "n": 26000, "dense": True, "period": 41, "seed": rng.randrange(1000)}]
         if not quick:
             uobjs += [{"kind": "utext", "n": 24000, "dense": True, "seed": 7},                    # incompressible-ish
@@ -177,7 +177,7 @@ def gen_memory(rng, quick):
             cases.append({"kind": "memory", "obj": obj, "compress": comp,
                           "damage": [["trunc_auto", 80 if quick else 600]] + ext})
         # a result holding >= 64 KiB of non-ASCII text (read outside a pickle frame with Memory's default protocol)
-        cases.append({"kind": "memory", "obj": {"kind": "utext", "n": 30000, "period": 37, "seed": 11},
+        cases.append({"kind": "memory", "obj": {"kind": "utext", "n": 50000, "period": 37, "seed": 11},
                       "compress": comp, "damage": [["trunc_u", 60 if quick else 600]] + ext})
         cases.append({"kind": "memory", "obj": {"kind": "udict", "n": 10, "dense": True, "seed": 12},
                       "compress": comp, "damage": [["trunc_all"]] + ext})
@@ -249,7 +249,9 @@ def judge_load(c, r):
     for i, n in enumerate(r["points"]):
         code = codes[i]
         if code == "D":
-            viol.append("load of the file cut to %d of %d bytes returned a different object" % (n, r["len"]))
+            what = next((d[2] for d in r["details"] if d[0] == n), "?")
+            viol.append("load of the file cut to %d of %d bytes (compress=%s, protocol=%s) returned %s instead of raising"
+                        % (n, r["len"], c["compress"], c.get("protocol"), what))
         elif code == "H":
             hang.append("load of the file cut to %d of %d bytes never returned" % (n, r["len"]))
     for t, code, info in r["trailers"]:
